@@ -39,8 +39,9 @@ pub fn stack_write_read() {
     let b = any_arr::<bool, { MAXB + 2 }>();
     let n: usize = any(); assume(n <= MAXB);
     let mut s = filled_stack(&b, n);
+    let grp = group(2);   // 1: the assertions that belong to C18 alone (so that they cannot hide the C16 ones)
     assert!(s.len() == n, "C16/C18: StackCoder::len must be the number of bits on the stack");
-    assert!(s.is_empty() == (n == 0), "C18: StackCoder::is_empty wrong");
+    if grp == 1 { assert!(s.is_empty() == (n == 0), "C18: StackCoder::is_empty wrong"); return; }
     let x: bool = any();
     if s.write_bit(x).is_err() { return; }
     assert!(s.len() == n + 1, "C16/C18: len after write_bit");
@@ -146,17 +147,18 @@ pub fn queue_roundtrip() {
     let n: usize = any(); assume(n <= MAXB);
     let mut q = QueueEncoder::<u8, SArr>::new();
     let mut i = 0; while i < n { if q.write_bit(b[i]).is_err() { return; } i += 1; }
+    let grp = group(2);   // 1: the assertions that belong to C18 alone
     assert!(q.len() == n, "C16/C18: QueueEncoder::len must be the number of bits written");
-    assert!(q.is_empty() == (n == 0), "C18: QueueEncoder::is_empty wrong");
+    if grp == 1 { assert!(q.is_empty() == (n == 0), "C18: QueueEncoder::is_empty wrong"); }
     let words = match q.into_compressed() { Ok(w) => w, Err(_) => { assert!(false, "C16: queue export failed"); return; } };
     let (spec, nw) = spec_words(&b, n, false);
     assert!(words.n == nw, "C16: exported queue has the wrong number of words");
     let mut i = 0; while i < nw { assert!(words.buf[i] == spec[i], "C16: exported queue words differ from LSB-first packing"); i += 1; }
     let mut d = QueueDecoder::<u8, QArr>::from_compressed(QArr::from_slice(&words.buf[..words.n]));
-    assert!(d.maybe_exhausted() == (nw == 0), "C18: fresh QueueDecoder::maybe_exhausted must be true exactly when there are no words");
+    if grp == 1 { assert!(d.maybe_exhausted() == (nw == 0), "C18: fresh QueueDecoder::maybe_exhausted must be true exactly when there are no words"); }
     let mut i = 0;
     while i < n { assert!(d.read_bit().unwrap() == Some(b[i]), "C16: queue must return bits in the order written"); i += 1; }
-    assert!(d.maybe_exhausted(), "C18: queue decoder must report maybe_exhausted after the last written bit");
+    if grp == 1 { assert!(d.maybe_exhausted(), "C18: queue decoder must report maybe_exhausted after the last written bit"); return; }
     let mut i = n;
     while i < nw * 8 { assert!(d.read_bit().unwrap() == Some(false), "C16: padding must be zero bits"); i += 1; }
     assert!(d.read_bit().unwrap().is_none(), "C16: queue decoder must end after the last word");
